@@ -56,7 +56,19 @@ func (en *Engine) bytesTerm(st *State, mem map[*Region]Cell, v Value) Value {
 			off, ok1 := x.Off.ConstInt()
 			n, ok2 := x.Len.ConstInt()
 			if !ok1 || !ok2 {
-				fail("bytesOf: symbolic window into a concrete array")
+				// symbolic window into a concrete array: the array as an array term
+				if len(cc.Elems) > 4096 {
+					fail("bytesOf: symbolic window into a large concrete array")
+				}
+				arr := FreshVar("bytes.arr", SArr)
+				for i, e := range cc.Elems {
+					t, ok := e.(*Term)
+					if !ok {
+						fail("bytesOf: non-scalar element")
+					}
+					arr = Store(arr, ConstI(int64(i)), t)
+				}
+				return UF("bsub", SBytes, arr, x.Off, x.Len)
 			}
 			var elems []*Term
 			for i := off; i < off+n; i++ {
